@@ -1,3 +1,126 @@
+/-
+  Props/C19.lean — Reconnect back-off doubles to the maximum; resets only after a stable connection.
+  About Model/Client.lean `Backoff` (client/mod.rs: `ReconnectOptions::normalize`,
+  `advance_reconnect_period`, `clamp_reconnect_period`, the reset in `transition_to_state`).
+  Durations are nanoseconds; every accepted configuration value is at most `Duration::MAX`.
+-/
 import GV.Model.Client
 namespace GV.Props.C19
+open GV
+
+/-- the effective (normalized) base and maximum -/
+def effBase (base max : Nat) : Nat := if base > max then max else base
+def effMax (base max : Nat) : Nat := Nat.max (if base > max then base else max) 1000000000
+
+/-- **Normalisation.**  base > max is swapped, a maximum below one second is raised to one second, and the
+    sequence starts from the effective base. -/
+theorem create_normalizes (jitter : Bool) (base max stable : Nat) :
+    let b := Backoff.create jitter base max stable
+    b.base = effBase base max ∧ b.max = effMax base max ∧ b.next = effBase base max ∧ b.base ≤ b.max ∧ 1000000000 ≤ b.max := by
+  simp only [Backoff.create, effBase, effMax]
+  split <;> split <;> simp [Nat.max_def] <;> omega
+
+theorem clamp_eq_min (b : Backoff) (p : Nat) : b.clamp p = min p b.max := by
+  simp only [Backoff.clamp]; split <;> omega
+
+/-- doubling with saturation at `Duration::MAX`, then clamping, is `min (2p) max` for any accepted maximum -/
+theorem clamp_satDouble (b : Backoff) (p : Nat) (hm : b.max ≤ durationMaxNs) :
+    b.clamp (satDouble p) = min (2 * p) b.max := by
+  rw [clamp_eq_min]; simp only [satDouble]; split <;> omega
+
+/-- iterate `advance` k times (random draws are irrelevant to the period) -/
+def advanceN : Nat → Backoff → List Nat → Backoff
+  | 0, b, _ => b
+  | k + 1, b, rs => advanceN k (b.advance (rs.headD 0)).1 rs.tail
+
+theorem advance_fields (b : Backoff) (r : Nat) :
+    (b.advance r).1.base = b.base ∧ (b.advance r).1.max = b.max ∧ (b.advance r).1.jitter = b.jitter ∧ (b.advance r).1.stable = b.stable := by
+  simp [Backoff.advance]
+
+/-- **Closed form.**  After k consecutive waits the next period is `min (next₀ * 2^k) max`. -/
+theorem next_after (k : Nat) : ∀ (b : Backoff) (rs : List Nat), b.max ≤ durationMaxNs → b.next ≤ b.max →
+    (advanceN k b rs).next = min (b.next * 2 ^ k) b.max ∧ (advanceN k b rs).max = b.max ∧
+    (advanceN k b rs).jitter = b.jitter ∧ (advanceN k b rs).base = b.base := by
+  induction k with
+  | zero => intro b rs _ h; simp [advanceN]; omega
+  | succ k ih =>
+    intro b rs hm hn
+    simp only [advanceN]
+    have hf := advance_fields b (rs.headD 0)
+    have hnext : (b.advance (rs.headD 0)).1.next = min (2 * b.next) b.max := by
+      simp only [Backoff.advance]; exact clamp_satDouble b b.next hm
+    have h1 := ih (b.advance (rs.headD 0)).1 rs.tail (by rw [hf.2.1]; exact hm) (by rw [hnext, hf.2.1]; omega)
+    rw [h1.1, h1.2.1, h1.2.2.1, h1.2.2.2, hnext, hf.2.1, hf.2.2.1, hf.1]
+    refine ⟨?_, rfl, rfl, rfl⟩
+    have hp : 0 < 2 ^ k := Nat.pow_pos (by omega)
+    rw [Nat.pow_succ]
+    by_cases hc : 2 * b.next ≤ b.max
+    · rw [Nat.min_eq_left hc]; congr 1; rw [Nat.mul_comm (2 ^ k) 2, ← Nat.mul_assoc, Nat.mul_comm b.next 2]
+    · have h2 : b.max ≤ 2 * b.next := by omega
+      rw [Nat.min_eq_right h2]
+      have h3 : b.max ≤ b.max * 2 ^ k := Nat.le_mul_of_pos_right _ hp
+      have h4 : b.max ≤ b.next * (2 ^ k * 2) := by
+        calc b.max ≤ 2 * b.next := h2
+          _ = b.next * 2 := Nat.mul_comm _ _
+          _ ≤ b.next * (2 ^ k * 2) := Nat.mul_le_mul_left _ (by omega)
+      omega
+
+/-- **The k-th consecutive wait without jitter is `min (base * 2^k) max`** (effective base and maximum),
+    for every accepted configuration. -/
+theorem kth_wait_no_jitter (base max stable : Nat) (k : Nat) (rs : List Nat)
+    (hb : base ≤ durationMaxNs) (hm : max ≤ durationMaxNs) :
+    ((advanceN k (Backoff.create false base max stable) rs).advance (rs.getD k 0)).2 =
+      min (effBase base max * 2 ^ k) (effMax base max) := by
+  have hc := create_normalizes false base max stable
+  simp only [] at hc
+  have hd : durationMaxNs = 18446744073709551615999999999 := by decide
+  have hmax : (Backoff.create false base max stable).max ≤ durationMaxNs := by
+    rw [hc.2.1, hd]; rw [hd] at hb hm; simp only [effMax, Nat.max_def]; split <;> split <;> omega
+  have h := next_after k (Backoff.create false base max stable) rs hmax (by rw [hc.2.2.1, hc.2.1]; rw [← hc.1, ← hc.2.1]; exact hc.2.2.2.1)
+  simp only [Backoff.advance]
+  rw [h.2.2.1, h.1, hc.2.2.1, hc.2.1]
+  simp [Backoff.create]
+
+/-- **Jitter range.**  With uniform jitter the wait lies in `[0, period]`, the period being the same
+    `min (base * 2^k) max`; in particular no wait ever exceeds the effective maximum. -/
+theorem wait_within_period (b : Backoff) (r : Nat) : (b.advance r).2 ≤ b.next := by
+  simp only [Backoff.advance]
+  split
+  · exact Nat.le_refl _
+  · split
+    · omega
+    · rename_i hp
+      have hpos : 0 < min b.next u64Max := by simp only [u64Max]; omega
+      have := Nat.mod_lt r hpos
+      omega
+
+theorem wait_never_exceeds_max (k : Nat) (b : Backoff) (rs : List Nat) (r : Nat) (hm : b.max ≤ durationMaxNs) (hn : b.next ≤ b.max) :
+    ((advanceN k b rs).advance r).2 ≤ b.max := by
+  have h := next_after k b rs hm hn
+  have := wait_within_period (advanceN k b rs) r
+  rw [h.1] at this
+  omega
+
+/-- **Computing the wait never fails**: `advance` is total (no division by zero for a zero period, no
+    overflow for periods near `Duration::MAX`) — it is a total function of the model, and the zero-period
+    and saturation branches are the ones the implementation guards. -/
+theorem zero_period_waits_zero (b : Backoff) (r : Nat) (h : b.next = 0) : (b.advance r).2 = 0 := by
+  simp only [Backoff.advance, h]; split <;> simp
+
+/-- **Reset only after a stable connection.**  Leaving a connection resets the sequence to the base period
+    exactly when that connection had a successful CONNACK and stayed established longer than the stability
+    period; otherwise the sequence continues. -/
+theorem reset_iff_stable (b : Backoff) (lasted : Option Nat) :
+    b.onConnectionEnd lasted = if (∃ d, lasted = some d ∧ d > b.stable) then { b with next := b.base } else b := by
+  cases lasted with
+  | none => simp [Backoff.onConnectionEnd]
+  | some d =>
+    simp only [Backoff.onConnectionEnd]
+    by_cases h : d > b.stable <;> simp [h]
+
+/-- non-vacuity: base 10 s > max 2 s: waits 2 s, 2 s (swapped and clamped); base 100 ms, max 1 s: 100, 200, 400, 800, 1000 -/
+example : ((advanceN 3 (Backoff.create false 100000000 1000000000 0) []).advance 0).2 = 800000000 := by decide
+example : ((advanceN 4 (Backoff.create false 100000000 1000000000 0) []).advance 0).2 = 1000000000 := by decide
+example : ((advanceN 0 (Backoff.create false 10000000000 2000000000 0) []).advance 0).2 = 2000000000 := by decide
+
 end GV.Props.C19
